@@ -72,7 +72,16 @@ def run(tier, seed):
     o2, f2 = accessor_obligations("C15"); obs += o2
     smt.discharge_all(obs, tier)
     results += [runner.from_smt(o) for o in obs]
-    results += kani.run_specs("C15", e3sets.PLANE_IDX + e3sets.WITH_FACES, tier)
+    kr = kani.run_specs("C15", e3sets.PLANE_IDX + e3sets.WITH_FACES, tier)
+    for x in kr:
+        if x.status == "refuted" and "with_faces.rejects" in x.name:
+            from ..runner import replay_requests
+            reqs = [{"op": "with_faces_lowdim", "gens": [[0.2, 0.3 if d == 2 else 0.0, 0.0], [0.7, 0.6 if d == 2 else 0.0, 0.0]], "anchor": [0, 0, 0], "width": [1, 1, 1], "dim": d, "periodic": False} for d in (1, 2)]
+            ans = replay_requests(reqs, timeout=120)
+            acc = [dict(rq, real=a) for rq, a in zip(reqs, ans) if not a.get("per_cell_rejected", True)]
+            x.replay = {"reproduced": bool(acc), "runs": acc, "what": "ConvexCell::with_faces on a cell of a 1D / 2D tessellation (get_cell_at(0).clone().with_faces()) is accepted instead of rejected"}
+            x.counterexample = acc or x.counterexample
+    results += kr
     # polytope validity is NOT decided by any contract in reach: bounded stand-in on the real crate, labelled
     npc, pb = polytope_probe(seed, 14 if tier == "quick" else 150)
     results.append(Result("C15.bounded.real_cells_with_faces_are_valid_convex_polytopes", "R", "discharged" if pb is None else "refuted", 0.0, "replay",
